@@ -738,10 +738,16 @@ def m_str_join(interp, self, args, kwargs):
     if isinstance(src, (SList, SIter)):
         from . import texts
         if self != '':
-            # a non-empty separator: the structural join of pyvc.strings (no prefix measure)
+            # a non-empty separator: the call-site invariant / structural join of pyvc.strings (no prefix measure)
             from . import strings, seqs
             return strings.join_slist(interp, self, seqs.as_slist(interp, src))
-        return texts.join_all(interp, src) if isinstance(src, SList) else texts.join_iter(interp, src)
+        if isinstance(src, SList):
+            from . import loops
+            r = loops.join_slist(interp, self, src)      # a call-site loop spec 'join#k' of the calling function
+            if r is not NotImplemented:
+                return r
+            return texts.join_all(interp, src)
+        return texts.join_iter(interp, src)
     items = list(interp.iterate(src))
     if not contains_sym(items, 1) and not isinstance(self, Sym):
         try:
